@@ -692,12 +692,29 @@ fn gen_fields(r: &mut Rng, depth: u32, ex: bool) -> Vec<(Name, Ty)> {
 }
 
 fn gen_key_ty(r: &mut Rng) -> Ty {
-    match r.below(12) {
+    match r.below(20) {
         0..=3 => Ty::Str,
         4..=8 => Ty::Int(*r.pick(&IntTy::ALL)),
         9 => Ty::Bool,
         10 => Ty::Char,
-        _ => Ty::Newtype(gen_name(r), Box::new(Ty::Int(IntTy::U64))),
+        11 => Ty::Newtype(gen_name(r), Box::new(Ty::Int(IntTy::U64))),
+        // keys that are not of one constructor, or change representation on the wire inside a container
+        12 => Ty::Tup(vec![Ty::Int(*r.pick(&[IntTy::I64, IntTy::U64, IntTy::I32])), Ty::Char]),
+        13 => Ty::Opt(Box::new(Ty::Int(*r.pick(&[IntTy::U64, IntTy::I64])))),
+        14 => Ty::Enum(
+            "K",
+            vec![
+                ("A", Ty::Unit),
+                ("B", Ty::Newtype("", Box::new(Ty::Int(IntTy::I64)))),
+                ("C", Ty::Tup(vec![Ty::Int(IntTy::U64), Ty::Str])),
+                ("D", Ty::Struct("", vec![("x", Ty::Int(IntTy::U8))])),
+            ],
+        ),
+        15 => Ty::Bytes,
+        16 => Ty::Seq(Box::new(Ty::Int(IntTy::U8))),
+        17 => Ty::UnitStruct(gen_name(r)),
+        18 => Ty::Unit,
+        _ => Ty::TupleStruct(gen_name(r), vec![Ty::Str, Ty::Int(IntTy::I64)]),
     }
 }
 
@@ -755,7 +772,7 @@ pub fn gen_ty(r: &mut Rng, depth: u32) -> Ty {
 /// mirror of `Spec.Serde.mayBeUndef`
 fn may_be_undef(t: &Ty) -> bool {
     match t {
-        Ty::Opt(_) | Ty::Unit => true,
+        Ty::Opt(_) => true,
         Ty::UnitStruct(n) => *n == "undefined",
         Ty::Newtype(_, t) => may_be_undef(t),
         Ty::Enum(_, vs) => vs.iter().any(|(n, s)| *n == "undefined" && *s == Ty::Unit),
@@ -896,6 +913,210 @@ pub fn gen_val(r: &mut Rng, t: &Ty, depth: u32) -> V {
             };
             V::Variant(en, vn, i as u32, Box::new(p))
         }
+    }
+}
+
+// ------------------------------------------------------------------------------------------------
+// the property's side conditions, written a second time (against the real `Ord` and the real codec) — tied to
+// `Spec.Serde.distinguishable` / `distinguishableW` on every generated case (T `c15class`), so that the oracle's guard is
+// neither wider nor narrower than stated and the number of cases it lets pass unjudged is known
+// ------------------------------------------------------------------------------------------------
+
+fn names_distinct(ns: &[Name]) -> bool {
+    ns.iter().enumerate().all(|(i, n)| !ns[i + 1..].contains(n))
+}
+
+fn wf_fields(fs: &[(Name, Ty)]) -> bool {
+    names_distinct(&fs.iter().map(|f| f.0).collect::<Vec<_>>()) && fs.iter().all(|f| wf_ty(&f.1))
+}
+
+fn wf_ty(t: &Ty) -> bool {
+    match t {
+        Ty::Opt(t) => !may_be_undef(t) && wf_ty(t),
+        Ty::Tup(ts) | Ty::TupleStruct(_, ts) => ts.iter().all(wf_ty),
+        Ty::Seq(t) | Ty::Newtype(_, t) => wf_ty(t),
+        Ty::Map(k, v) => wf_ty(k) && wf_ty(v),
+        Ty::Struct(_, fs) => wf_fields(fs),
+        Ty::ExStruct(_, fs) => wf_fields(fs) && !fs.iter().any(|f| f.0 == "__struct__"),
+        Ty::Enum(_, vs) => {
+            names_distinct(&vs.iter().map(|v| v.0).collect::<Vec<_>>())
+                && vs.iter().all(|(_, sh)| match sh {
+                    Ty::Unit => true,
+                    Ty::Newtype(_, t) => wf_ty(t),
+                    Ty::Tup(ts) => ts.iter().all(wf_ty),
+                    Ty::Struct(_, fs) => wf_fields(fs),
+                    _ => false,
+                })
+        }
+        _ => true,
+    }
+}
+
+fn key_term(k: &V, wire: bool) -> Option<OwnedTerm> {
+    let t = erltf_serde::to_term(k).ok()?;
+    if wire { erltf::decode(&erltf::encode(&t).ok()?).ok() } else { Some(t) }
+}
+
+/// `Spec.Serde.plainWith`: no f32 NaN; every map lists its entries in strictly ascending order of the serialised keys
+/// (`wire`: of the keys as they come back from the codec)
+fn plain(v: &V, wire: bool) -> bool {
+    match v {
+        V::F32(b) => !f32::from_bits(*b).is_nan(),
+        V::Some(v) | V::Newtype(_, v) | V::Variant(_, _, _, v) => plain(v, wire),
+        V::Tup(vs) | V::Seq(vs) | V::TupleStruct(_, vs) => vs.iter().all(|v| plain(v, wire)),
+        V::Struct(_, fs) | V::ExStruct(_, fs) => fs.iter().all(|f| plain(&f.1, wire)),
+        V::Map(kvs) => {
+            if !kvs.iter().all(|(k, v)| plain(k, wire) && plain(v, wire)) {
+                return false;
+            }
+            let mut before: Vec<OwnedTerm> = Vec::new();
+            for (k, _) in kvs {
+                let Some(t) = key_term(k, wire) else { return false };
+                if !before.iter().all(|p| t.cmp(p) == std::cmp::Ordering::Greater) {
+                    return false;
+                }
+                before.push(t);
+            }
+            true
+        }
+        _ => true,
+    }
+}
+
+fn classify(ctx: &mut Ctx, ty: &Ty, v: &V) {
+    let dist = wf_ty(ty) && plain(v, false);
+    let distw = dist && plain(v, true);
+    ctx.tie(
+        "class",
+        &format!("c15class {} {}", ty_text(ty), val_text(v)),
+        &format!("ty,{},{}", if dist { "dist" } else { "nodist" }, if distw { "distw" } else { "nodistw" }),
+    );
+    if !dist {
+        ctx.count("guard_excluded");
+    } else if !distw {
+        ctx.count("guard_excluded_on_the_wire_only");
+    } else {
+        ctx.count("guard_judged");
+    }
+}
+
+/// input classes of a generated case (for the evidence file)
+fn count_classes(ctx: &mut Ctx, ty: &Ty, v: &V, depth: u32) {
+    ctx.count(&format!("class_depth_{}", depth.min(4)));
+    match (ty, v) {
+        (_, V::Int(k, i)) => {
+            if !IntTy::I32.fits(*i) {
+                ctx.count("class_int_beyond_i32");
+            }
+            if *k == IntTy::U64 && *i > i64::MAX as i128 {
+                ctx.count("class_u64_above_i64_max");
+            }
+            if *i == k.lo() || *i == k.hi() {
+                ctx.count("class_int_at_type_bound");
+            }
+        }
+        (_, V::F32(b)) => {
+            let f = f32::from_bits(*b);
+            ctx.count(if f.is_nan() {
+                "class_f32_nan"
+            } else if f.is_infinite() {
+                "class_f32_inf"
+            } else if f == 0.0 {
+                if f.is_sign_negative() { "class_f32_neg_zero" } else { "class_f32_zero" }
+            } else if f.is_subnormal() {
+                "class_f32_subnormal"
+            } else {
+                "class_f32_normal"
+            });
+        }
+        (_, V::F64(b)) => {
+            let f = f64::from_bits(*b);
+            ctx.count(if f.is_nan() {
+                "class_f64_nan"
+            } else if f.is_infinite() {
+                "class_f64_inf"
+            } else if f == 0.0 {
+                "class_f64_zero"
+            } else if f.is_subnormal() {
+                "class_f64_subnormal"
+            } else {
+                "class_f64_normal"
+            });
+        }
+        (_, V::Char(c)) => ctx.count(if (*c as u32) < 0x80 {
+            "class_char_ascii"
+        } else if (*c as u32) < 0x10000 {
+            "class_char_bmp"
+        } else {
+            "class_char_non_bmp"
+        }),
+        (_, V::Str(s)) => ctx.count(if s.is_empty() {
+            "class_str_empty"
+        } else if s.is_ascii() {
+            "class_str_ascii"
+        } else {
+            "class_str_non_ascii"
+        }),
+        (Ty::Opt(t), V::None) => {
+            ctx.count("class_opt_none");
+            if **t == Ty::Unit {
+                ctx.count("class_opt_unit");
+            }
+        }
+        (Ty::Opt(t), V::Some(x)) => {
+            ctx.count("class_opt_some");
+            if **t == Ty::Unit {
+                ctx.count("class_opt_unit");
+            }
+            if may_be_undef(t) {
+                ctx.count("class_opt_of_undef_like");
+            }
+            count_classes(ctx, t, x, depth + 1);
+        }
+        (Ty::Tup(ts), V::Tup(vs)) | (Ty::TupleStruct(_, ts), V::TupleStruct(_, vs)) => {
+            ts.iter().zip(vs).for_each(|(t, x)| count_classes(ctx, t, x, depth + 1))
+        }
+        (Ty::Seq(t), V::Seq(vs)) => {
+            if vs.is_empty() {
+                ctx.count("class_seq_empty");
+            }
+            vs.iter().for_each(|x| count_classes(ctx, t, x, depth + 1))
+        }
+        (Ty::Map(kt, vt), V::Map(kvs)) => {
+            ctx.count(&format!("class_map_key_{}", kind(kt)));
+            if kvs.is_empty() {
+                ctx.count("class_map_empty");
+            }
+            for (k, x) in kvs {
+                count_classes(ctx, kt, k, depth + 1);
+                count_classes(ctx, vt, x, depth + 1);
+            }
+        }
+        (Ty::Struct(_, fts), V::Struct(_, fs)) | (Ty::ExStruct(_, fts), V::ExStruct(_, fs)) => {
+            fts.iter().zip(fs).for_each(|(t, x)| count_classes(ctx, &t.1, &x.1, depth + 1))
+        }
+        (Ty::Newtype(_, t), V::Newtype(_, x)) => count_classes(ctx, t, x, depth + 1),
+        (Ty::Enum(_, vs), V::Variant(_, _, i, p)) => {
+            if let Some((_, sh)) = vs.get(*i as usize) {
+                match (sh, &**p) {
+                    (Ty::Unit, _) => ctx.count("class_variant_unit"),
+                    (Ty::Newtype(_, t), V::Newtype(_, x)) => {
+                        ctx.count("class_variant_newtype");
+                        count_classes(ctx, t, x, depth + 1)
+                    }
+                    (Ty::Tup(ts), V::Tup(xs)) => {
+                        ctx.count("class_variant_tuple");
+                        ts.iter().zip(xs).for_each(|(t, x)| count_classes(ctx, t, x, depth + 1))
+                    }
+                    (Ty::Struct(_, fts), V::Struct(_, fs)) => {
+                        ctx.count("class_variant_struct");
+                        fts.iter().zip(fs).for_each(|(t, x)| count_classes(ctx, &t.1, &x.1, depth + 1))
+                    }
+                    _ => {}
+                }
+            }
+        }
+        _ => {}
     }
 }
 
@@ -1716,6 +1937,8 @@ fn bare(s: &str) -> &str {
 
 fn dyn_case(ctx: &mut Ctx, ty: &Ty, v: &V) {
     ctx.count(&format!("type_{}", kind(ty)));
+    count_classes(ctx, ty, v, 0);
+    classify(ctx, ty, v);
     let (tt, vt) = (ty_text(ty), val_text(v));
     let term = match std::panic::catch_unwind(|| erltf_serde::to_term(v)) {
         Ok(Ok(t)) => t,
@@ -1759,6 +1982,7 @@ fn dyn_case(ctx: &mut Ctx, ty: &Ty, v: &V) {
         }
         _ => {
             ctx.tie("gen", &format!("c15bytes {} {}", tt, vt), "encerr");
+            ctx.prop("gen", &format!("c15rt wire {} {} encerr", tt, vt), "ok");
             ctx.count("to_bytes_err");
         }
     }
@@ -1772,6 +1996,9 @@ fn dyn_case(ctx: &mut Ctx, ty: &Ty, v: &V) {
         let res = dyn_from_term(ty, &m);
         ctx.count(if res.starts_with("ok") { "mutant_ok" } else { "mutant_err" });
         ctx.tie("mut", &format!("c15de {} {}", tt, term_text(&m)), &res);
+        if let Ty::Int(k) = ty {
+            ctx.prop("int-read", &format!("c15int {} {} {}", k.text(), term_text(&m), bare(&res)), "ok");
+        }
     }
 }
 
@@ -1850,6 +2077,8 @@ fn witnesses(ctx: &mut Ctx) {
             let res = dyn_from_term(&Ty::Int(k), t);
             ctx.count(if res.starts_with("ok") { "bigint_edge_ok" } else { "bigint_edge_err" });
             ctx.tie("edge", &format!("c15de {} {}", k.text(), term_text(t)), &res);
+            // the property on arbitrary integer terms: exactly the term's number when it is in range, an error otherwise
+            ctx.prop("int-read", &format!("c15int {} {} {}", k.text(), term_text(t), bare(&res)), "ok");
         }
     }
     let bins: Vec<Vec<u8>> = vec![
@@ -1884,8 +2113,162 @@ fn witnesses(ctx: &mut Ctx) {
     ctx.add("exhaustive", 1);
 }
 
+// ------------------------------------------------------------------------------------------------
+// 128-bit integers: not carried; an error in both directions, at any depth
+// ------------------------------------------------------------------------------------------------
+
+#[derive(Serialize, Deserialize, Debug, PartialEq)]
+struct WideField {
+    a: u8,
+    w: i128,
+}
+#[derive(Serialize, Deserialize, Debug, PartialEq)]
+enum WideVar {
+    N(u128),
+    S { w: i128 },
+}
+
+fn wide_res<T: Serialize>(x: &T) -> String {
+    match std::panic::catch_unwind(std::panic::AssertUnwindSafe(|| erltf_serde::to_term(x))) {
+        Ok(Ok(t)) => format!("ok {}", term_text(&t)),
+        Ok(Err(_)) => "err".into(),
+        Err(_) => "panic".into(),
+    }
+}
+
+fn wide_cases(ctx: &mut Ctx) {
+    let mut is: Vec<i128> = vec![0, 1, -1, 5, i64::MAX as i128, i64::MAX as i128 + 1, u64::MAX as i128, u64::MAX as i128 + 1,
+        i64::MIN as i128 - 1, i128::MAX, i128::MIN];
+    for _ in 0..6 {
+        is.push(((ctx.rng.next() as i128) << 64 | ctx.rng.next() as i128) >> ctx.rng.below(120));
+    }
+    for i in is {
+        ctx.count("wide_int_cases");
+        ctx.tie("wide", &format!("c15serwide i128 {}", i), &wide_res(&i));
+        ctx.tie("wide", &format!("c15serwide i128 {}", i), &wide_res(&(1u8, i)));
+        ctx.tie("wide", &format!("c15serwide i128 {}", i), &wide_res(&vec![Some(i)]));
+        ctx.tie("wide", &format!("c15serwide i128 {}", i), &wide_res(&WideField { a: 1, w: i }));
+        ctx.tie("wide", &format!("c15serwide i128 {}", i), &wide_res(&WideVar::S { w: i }));
+        let mut m: BTreeMap<String, i128> = BTreeMap::new();
+        m.insert("k".into(), i);
+        ctx.tie("wide", &format!("c15serwide i128 {}", i), &wide_res(&m));
+        let mut m: BTreeMap<i128, u8> = BTreeMap::new();
+        m.insert(i, 1);
+        ctx.tie("wide", &format!("c15serwide i128 {}", i), &wide_res(&m));
+        if i >= 0 {
+            let u = i as u128;
+            ctx.tie("wide", &format!("c15serwide u128 {}", u), &wide_res(&u));
+            ctx.tie("wide", &format!("c15serwide u128 {}", u), &wide_res(&WideVar::N(u)));
+            ctx.tie("wide", &format!("c15serwide u128 {}", u), &wide_res(&[u, u]));
+        }
+    }
+    let big = |neg: bool, d: Vec<u8>| OwnedTerm::BigInt(BigInt::new(neg, d));
+    let terms = vec![
+        OwnedTerm::Integer(0), OwnedTerm::Integer(5), OwnedTerm::Integer(i64::MIN), big(false, vec![5]), big(false, vec![1; 9]),
+        big(true, vec![255; 16]), OwnedTerm::Float(1.0), OwnedTerm::Atom(Atom::new("nil")), OwnedTerm::Binary(vec![5]),
+    ];
+    for t in &terms {
+        let r1 = match std::panic::catch_unwind(|| erltf_serde::from_term::<i128>(t)) {
+            Ok(Ok(x)) => format!("ok {}", x),
+            Ok(Err(_)) => "err".into(),
+            Err(_) => "panic".into(),
+        };
+        ctx.tie("wide", &format!("c15dewide i128 {}", term_text(t)), &r1);
+        let r2 = match std::panic::catch_unwind(|| erltf_serde::from_term::<u128>(t)) {
+            Ok(Ok(x)) => format!("ok {}", x),
+            Ok(Err(_)) => "err".into(),
+            Err(_) => "panic".into(),
+        };
+        ctx.tie("wide", &format!("c15dewide u128 {}", term_text(t)), &r2);
+        let r3 = match std::panic::catch_unwind(|| erltf_serde::from_term::<WideField>(&OwnedTerm::Map(
+            [(OwnedTerm::Binary(b"a".to_vec()), OwnedTerm::Integer(1)), (OwnedTerm::Binary(b"w".to_vec()), t.clone())].into_iter().collect(),
+        ))) {
+            Ok(Ok(_)) => "ok 0".to_string(),
+            Ok(Err(_)) => "err".into(),
+            Err(_) => "panic".into(),
+        };
+        ctx.tie("wide", &format!("c15dewide i128 {}", term_text(t)), &r3);
+    }
+}
+
+/// "nested arbitrarily": chains of containers far deeper than the random generator goes, up to and across the decoder's
+/// nesting limit (beyond it `from_bytes` must report an error, not a different value)
+fn deep_cases(ctx: &mut Ctx) {
+    // five of six layer kinds add a level of term nesting: the decoder's limit of 256 is crossed between 306 and 310 layers
+    let depths: Vec<usize> =
+        if ctx.thorough { vec![6, 17, 60, 200, 300, 304, 305, 306, 307, 308, 309, 310, 311, 312, 340] } else { vec![6, 17, 60, 305, 306, 307, 308, 309, 310, 340] };
+    for d in depths {
+        for shape in 0..4u32 {
+            let leaf_ty = match shape {
+                0 => Ty::Int(IntTy::I64),
+                1 => Ty::Char,
+                2 => Ty::Opt(Box::new(Ty::Str)),
+                _ => Ty::Int(IntTy::U64),
+            };
+            let leaf = gen_val(&mut ctx.rng, &leaf_ty, 3);
+            let (mut ty, mut v) = (leaf_ty, leaf);
+            for i in 0..d {
+                // layers that add a level of nesting to the term (seq, tuple, map, variant) mixed with transparent ones
+                match (shape + i as u32) % 6 {
+                    0 => {
+                        ty = Ty::Seq(Box::new(ty));
+                        v = V::Seq(vec![v]);
+                    }
+                    1 => {
+                        ty = Ty::Tup(vec![Ty::Bool, ty]);
+                        v = V::Tup(vec![V::Bool(i % 2 == 0), v]);
+                    }
+                    2 => {
+                        ty = Ty::Struct("S", vec![("f", ty)]);
+                        v = V::Struct("S", vec![("f", v)]);
+                    }
+                    3 => {
+                        ty = Ty::Enum("E", vec![("U", Ty::Unit), ("N", Ty::Newtype("", Box::new(ty)))]);
+                        v = V::Variant("E", "N", 1, Box::new(V::Newtype("", Box::new(v))));
+                    }
+                    4 => {
+                        ty = Ty::Newtype("W", Box::new(ty));
+                        v = V::Newtype("W", Box::new(v));
+                    }
+                    _ => {
+                        ty = Ty::Map(Box::new(Ty::Str), Box::new(ty));
+                        v = V::Map(vec![(V::Str("k".into()), v)]);
+                    }
+                }
+            }
+            ctx.count("deep_cases");
+            deep_case(ctx, &ty, &v);
+        }
+    }
+}
+
+/// like `dyn_case` without the perturbations (the texts are long)
+fn deep_case(ctx: &mut Ctx, ty: &Ty, v: &V) {
+    let (tt, vt) = (ty_text(ty), val_text(v));
+    let Ok(term) = erltf_serde::to_term(v) else {
+        ctx.tie("deep", &format!("c15ser {}", vt), "err");
+        return;
+    };
+    let mem = dyn_from_term(ty, &term);
+    ctx.prop("deep", &format!("c15rt mem {} {} {}", tt, vt, bare(&mem)), "ok");
+    match std::panic::catch_unwind(|| erltf_serde::to_bytes(v)) {
+        Ok(Ok(b)) => {
+            let wire = dyn_from_bytes(ty, &b);
+            ctx.tie("deep", &format!("c15bytes {} {}", tt, vt), &wire);
+            ctx.prop("deep", &format!("c15rt wire {} {} {}", tt, vt, bare(&wire)), "ok");
+            ctx.count(if wire.starts_with("ok") { "deep_wire_ok" } else { "deep_wire_err" });
+        }
+        _ => {
+            ctx.tie("deep", &format!("c15bytes {} {}", tt, vt), "encerr");
+            ctx.prop("deep", &format!("c15rt wire {} {} encerr", tt, vt), "ok");
+        }
+    }
+}
+
 pub fn run(ctx: &mut Ctx) {
     witnesses(ctx);
+    wide_cases(ctx);
+    deep_cases(ctx);
     let n = ctx.n(700, 4000);
     for _ in 0..n {
         let ty = gen_ty(&mut ctx.rng, 0);
@@ -1904,6 +2287,9 @@ pub fn run(ctx: &mut Ctx) {
             let t = crate::tgen::gen_term(&mut ctx.rng, &cfg, 0);
             let res = dyn_from_term(&ty, &t);
             ctx.tie("anyterm", &format!("c15de {} {}", ty_text(&ty), term_text(&t)), &res);
+            if let Ty::Int(k) = &ty {
+                ctx.prop("int-read", &format!("c15int {} {} {}", k.text(), term_text(&t), bare(&res)), "ok");
+            }
         }
     }
     let n = ctx.n(25, 150);
